@@ -2,7 +2,7 @@
 """(maintenance) archive a confirmed seeded change under seeded/<PROP>-<k>/ : patch.diff, demo.py, meta.json"""
 import json, os, shutil, sys
 prop, d, k, caught, note = sys.argv[1], sys.argv[2], sys.argv[3], sys.argv[4], (sys.argv[5] if len(sys.argv) > 5 else '')
-out = os.path.join(os.path.dirname(os.path.abspath(__file__)), '..', 'seeded', f'{prop}-{k}')
+out = os.path.join(os.path.dirname(os.path.abspath(__file__)), '..', 'seeded', f'{prop}-{os.environ.get("SEED_ROUND", "")}{k}')
 os.makedirs(out, exist_ok=True)
 shutil.copy(os.path.join(d, f'patch{k}.diff'), os.path.join(out, 'patch.diff'))
 shutil.copy(os.path.join(d, f'demo{k}.py'), os.path.join(out, 'demo.py'))
